@@ -35,10 +35,10 @@ PROPS["C07"] = {
 PROPS["C02"] = {
     "units": ["h1_transfer_encoding", "h1_codec", "h1_dispatcher_io", "h1_chunked", "h1_poll_request", "h1_poll_response"],
     "kani": [],
-    "technique": "Verus contracts on the extracted real TransferEncoding encoder against an RFC 7230 chunk-framing oracle (exact bytes appended, length enforcement, terminator exactly once, short body is an error); Verus contracts on the extracted real InnerDispatcher::{send_response_inner, send_response, send_error_response, poll_response} over a ghost wire log, ghost request ids and a ghost answered/in-hand/queued order",
+    "technique": "Verus contracts on the extracted real TransferEncoding encoder against an RFC 7230 chunk-framing oracle (exact bytes appended, length enforcement, terminator exactly once, short body is an error); Verus contracts on the extracted real InnerDispatcher::{send_response_inner, send_response, send_error_response, send_continue, handle_request, poll_response} over a ghost wire log, ghost request ids and a ghost answered/in-hand/queued order",
     "level_text": "deductive proof, for all chunk contents/lengths and encoder states, that TransferEncoding::encode/encode_eof append exactly the oracle's bytes (chunked: hex CRLF data CRLF, terminator once; sized: cut to the declared length; eof: pass-through) and that a short sized body yields UnexpectedEof; MessageEncoder::encode chooses the body framing from (HEAD?, body size, chunked allowed, upgrade stream) of THIS message only; Codec::encode encodes the head with exactly the context recorded when that request was decoded; poll_flush writes every buffered byte exactly once and in order; and the theorem decode-of-encode (lemma_decode_of_encode in unit h1_chunked, over the shared wire oracle specs/chunked_wire.vs): for every list of non-empty chunks, the bytes the chunked encoder writes are decoded by the RFC 7230 automaton to exactly their concatenation, ending in state End with nothing left over; for InnerDispatcher::poll_response / send_response / send_error_response (all schedules of handler completion, body readiness and arrival of later requests, since every future and body is an arbitrary prophesied stream): a response head is encoded only when no response is open and body chunks / the terminator only inside an open one (never interleaved: these are preconditions of the codec's encode, discharged at every call site), the sequence (request ids already answered ++ the one in hand ++ the queued ones) only ever grows at the back, so responses are started in exactly the order requests were queued with one head each; the response started is the one the service/expect future of the request in hand produced; the 100-continue interim is written only between responses; the dispatcher state and the encoder agree on whether a response is open; an idle return means the queue is empty",
     "level_note": "assumes shim contracts for bytes::BytesMut and that writeln!(MutWriter(buf), \"{:X}\\r\", n) appends upper-hex(n) CR LF (R12); in h1_poll_response the codec's encode, the service/expect futures and the bodies are assumed contracts (ghost log, prophesied streams), pin projection is erased (R3/R4b/R4c) and termination of the outer loop is not proved; independence of framing across pipelined requests is the known finding S1",
-    "not_decided": ["handle_request (eager first poll of a request decoded while nothing is in flight) and the upgrade hand-off: not under contract; poll_response assumes poll_request leaves an in-flight state alone", "the ghost wire log of h1_poll_response is not connected to the bytes Codec::encode writes (unit h1_codec proves those separately)",
+    "not_decided": ["the upgrade hand-off (PollResponse::Upgrade) and Dispatcher::poll calling poll_request/poll_response in turn: not under contract; poll_response assumes poll_request leaves an in-flight state alone, poll_request assumes (precondition) that an idle dispatcher has an empty queue, which poll_response ensures on every idle return", "the ghost wire log of h1_poll_response is not connected to the bytes Codec::encode writes (unit h1_codec proves those separately)",
                     "framing depends only on that request/response, not on other pipelined requests (Codec context held while a response is in flight; DESIGN.md S1)",
                     "status-dependent header rules of MessageType::encode_headers (no body for 1xx/204/304, Content-Length/Transfer-Encoding/Connection headers)"],
     "assumptions": ["TransferEncoding::encode precondition: msg.len() + 2 <= usize::MAX (a slice cannot span the whole address space)"],
@@ -118,7 +118,7 @@ PROPS["C03"] = {
     "technique": "Verus contracts on the extracted real decision functions of the reuse discipline: should_close_for_unread_payload, enter_linger, can_read, read_available's FINISHED handling, Codec's connection-type bookkeeping; contracts on send_response / send_error_response / poll_response (Connection: close announced and linger/shutdown entered when the request body is unread and undrainable, keep-alive decision)",
     "level_text": "deductive proof, for all states, of the functions that implement close-means-close: the unread-payload close decision equals `body unfinished and not (dropped and drainable)`; enter_linger clears KEEP_ALIVE and sets LINGER|FINISHED touching nothing else; no read is attempted after READ_DISCONNECT; while an unread, dropped request body is being drained a successful read does not clear FINISHED (so the close decision survives the drain) and no other flag is touched; the codec records Close when keep-alive is disabled and a response's Close/Upgrade overrides the recorded type; body bytes are never handed to the head parser while a payload decoder is installed; for send_response / send_error_response: when the request body is unread and undrainable (or the connection is draining) and the response is not an upgrade, the head is encoded with connection type Close, and if the response has no body the flags are FINISHED plus LINGER without KEEP_ALIVE (disconnect deadline configured) or SHUTDOWN; for poll_response: at the end of a response body and of an error-response body alike, nothing pipelined and an unread undrainable request body put the connection into the same closing state; KEEP_ALIVE is set on an idle return exactly when the request body is finished and the codec still says keep-alive; draining drops the queue, clears KEEP_ALIVE and shuts down",
     "level_note": "function-level proofs plus the invariants of poll_response; the connection-level statement is decided only up to the flags (that Dispatcher::poll acts on LINGER/SHUTDOWN/FINISHED is not under contract); one obligation (no request is dispatched after a close-announcing response) fails on the unchanged tree and is recorded as a known finding",
-    "not_decided": ["Dispatcher::poll acting on the flags (LINGER -> poll_linger, SHUTDOWN -> poll_shutdown) and poll_linger deadline handling (time)", "handle_request (eager first poll inside poll_request)"],
+    "not_decided": ["Dispatcher::poll acting on the flags (LINGER -> poll_linger, SHUTDOWN -> poll_shutdown) and poll_linger deadline handling (time)"],
     "assumptions": [],
 }
 
